@@ -800,24 +800,23 @@ def Array(
         @classmethod
         def encode(cls, values: List[Any], length: Optional[int] = None) -> bytes:
             _length = length or cls.length
-            if isinstance(_length, int):
-                if len(values) < _length:
-                    raise DataError(
-                        f"Not enough values to encode array of {cls.element_type}[{_length}]"
-                    )
-
-                _len = _length
-            else:
-                _len = len(values)
-
             try:
                 if issubclass(cls.element_type, BitArrayType):
                     chunk_size = cls.element_type.size * 8
-                    _len = len(values) // chunk_size
                     values = [
                         values[i : i + chunk_size]
                         for i in range(0, len(values), chunk_size)
                     ]
+
+                if isinstance(_length, int):
+                    if len(values) < _length:
+                        raise DataError(
+                            f"Not enough values to encode array of {cls.element_type}[{_length}]"
+                        )
+
+                    _len = _length
+                else:
+                    _len = len(values)
 
                 return b"".join(cls.element_type.encode(values[i]) for i in range(_len))
             except Exception as err:
@@ -829,9 +828,12 @@ def Array(
         def _decode_all(cls, stream):
             _array = []
             while True:
+                _start = stream.tell()
                 try:
                     _array.append(cls.element_type.decode(stream))
                 except BufferEmptyError:
+                    if stream.tell() != _start:
+                        raise DataError("Buffer ends inside the last array element")
                     break
             return _array
 
@@ -841,14 +843,14 @@ def Array(
             try:
                 stream = _as_stream(buffer)
                 if _length is None:
-                    return cls._decode_all(stream)
-
-                if isinstance(_length, DataType):
-                    _len = _length.decode(stream)
+                    _val = cls._decode_all(stream)
                 else:
-                    _len = _length
+                    if isinstance(_length, int):
+                        _len = _length
+                    else:
+                        _len = _length.decode(stream)
 
-                _val = [cls.element_type.decode(stream) for _ in range(_length)]
+                    _val = [cls.element_type.decode(stream) for _ in range(_len)]
 
                 if issubclass(cls.element_type, BitArrayType):
                     return list(chain.from_iterable(_val))
